@@ -264,7 +264,8 @@ def features(rec) -> list:
                         out.add("utuple-short-input")
                     # a text met where a COLLECTION of variadic tuples is expected is iterated character by character: every
                     # one-character string is itself a too-short input of the inner tuple (same re-use of items, F03)
-                    if s_[0] == "str" and len(s_[1]) >= 1 and T[0] not in ("utuple", "ustar") and any(n > 1 for n in need):
+                    nested = [len(t[1]) + len(t[3]) for t in subs if t[0] in ("utuple", "ustar") and t is not T]
+                    if s_[0] == "str" and len(s_[1]) >= 1 and any(n > 1 for n in nested):
                         out.add("utuple-short-input")
     return sorted(out)
 
